@@ -177,8 +177,10 @@ func genWire(r *Rand, g GenCfg) Plan {
 			t.Inv.Args = append(t.Inv.Args, KV{"blob", *blob.V})
 		}
 	}
+	wide := -1
 	if g.Index%16 == 11 {
-		widen(r, &p.Tokens[r.Intn(2)])
+		wide = r.Intn(2)
+		widen(r, &p.Tokens[wide])
 	}
 	add := func(s XStep) { p.Steps = append(p.Steps, s) }
 	add(XStep{Op: "roundtrip", Tok: 0})
@@ -197,23 +199,26 @@ func genWire(r *Rand, g GenCfg) Plan {
 		if all {
 			add(XStep{Op: "flip_all", Tok: tok, Lo: r.Intn(2000), Hi: -1})
 			p.Steps[len(p.Steps)-1].Hi = p.Steps[len(p.Steps)-1].Lo + 200
-		} else if huge {
-			// (a complete enumeration of a 100 KB token would be millions of large decodes: an odd
+		} else if huge || wide >= 0 {
+			// (a complete enumeration of a 10-100 KB token would be millions of large decodes: an odd
 			// stride over everything, dense windows around 64 KiB and at the end, both ends complete)
 			tok = 0
+			if !huge {
+				tok = wide
+			}
 			for _, op := range []string{"flip_all", "trunc_all", "del_all"} {
 				unit := 1
 				if op == "flip_all" {
 					unit = 8
 				}
-				wide := 149 // bytes
+				st := 449 // bytes
 				if op == "flip_all" {
-					wide = 541 // bits
+					st = 1621 // bits
 				}
-				add(XStep{Op: op, Tok: 0, Hi: -1, Stride: wide})
-				add(XStep{Op: op, Tok: 0, Lo: (65536 - 40) * unit, Hi: (65536 + 400) * unit, Stride: 7})
-				add(XStep{Op: op, Tok: 0, Lo: 0, Hi: 300 * unit, Stride: 3})
-				add(XStep{Op: op, Tok: 0, Lo: -600 * unit, Hi: -1, Stride: 1})
+				add(XStep{Op: op, Tok: tok, Hi: -1, Stride: st})
+				add(XStep{Op: op, Tok: tok, Lo: (65536 - 40) * unit, Hi: (65536 + 400) * unit, Stride: 7})
+				add(XStep{Op: op, Tok: tok, Lo: 0, Hi: 64 * unit, Stride: 1})
+				add(XStep{Op: op, Tok: tok, Lo: -100 * unit, Hi: -1, Stride: 1})
 			}
 		} else {
 			add(XStep{Op: "flip_all", Tok: tok, Hi: -1})
@@ -338,7 +343,7 @@ func genWire(r *Rand, g GenCfg) Plan {
 					continue
 				}
 				add(XStep{Op: "byz", Tok: t, Field: f, How: "unknown_key", Val: r.Intn(9)})
-				for _, to := range []string{"int", "text", "bytes", "bool", "null", "array", "map", "float", "link"} {
+				for _, to := range []string{"int", "text", "bytes", "bool", "null", "array", "map", "float", "link", "empty-map", "empty-array", "empty-text", "empty-bytes"} {
 					add(XStep{Op: "byz", Tok: t, Field: f, How: "retype", Kind: to, Val: r.Intn(64)})
 				}
 			}
